@@ -39,7 +39,16 @@ def castTarget : CastK → TE → Ty
   | .b2i, _ => .int | .i2b, _ => .byte | .i2bool, _ => .bool | .bool2b, _ => .byte
   | .s2a, _ => .arr .byte true | .vol, _ => .empty
 
-partial def typeOf : TE → Ty
+structure FuncSig where
+  name : List CP
+  fl : Flavor
+  ptys : List Ty
+  ret : Ty
+  builtin : Bool
+  deriving Repr, Inhabited
+
+mutual
+def typeOf : TE → Ty
   | .intv _ b _ => if b then .byte else .int
   | .boolv _ => .bool | .strv _ => .string
   | .cast .vol e => (match typeOf e with | .arr el _ => .arr el true | t => t)
@@ -54,75 +63,97 @@ partial def typeOf : TE → Ty
   | .boolop _ _ _ => .bool | .notop _ => .bool
   | .spec l _ => typeOf l
   | .param t => t
+end
 
 def isPrimitive : TE → Bool
   | .intv _ _ _ => true | .boolv _ => true | .strv _ => true | _ => false
 
 def isArr : Ty → Bool | .arr _ _ => true | _ => false
 
-partial def coercible (e : TE) (new : Ty) : Bool :=
-  let base : Bool :=
-    let t := typeOf e
-    if t == new then true
-    else match t with
-      | .arr el _ => Ty.arr el true == new
-      | .byte => new == .int
-      | .string => new == .arr .byte true
-      | _ => false
+/-- `Expression.coercible` of the base class, as a function of the static type -/
+def baseCoercible (t new : Ty) : Bool :=
+  if t == new then true
+  else match t with
+    | .arr el _ => Ty.arr el true == new
+    | .byte => new == .int
+    | .string => new == .arr .byte true
+    | _ => false
+
+mutual
+def coercible (e : TE) (new : Ty) : Bool :=
   match e with
-  | .intv _ _ sh => base || (sh && new == .byte)
-  | .arith _ _ _ sh => base || (sh && new == .byte)
-  | .unarith _ _ sh => base || (sh && new == .byte)
+  | .intv _ _ sh => baseCoercible (typeOf e) new || (sh && new == .byte)
+  | .arith _ _ _ sh => baseCoercible .int new || (sh && new == .byte)
+  | .unarith _ _ sh => baseCoercible .int new || (sh && new == .byte)
   | .arrlit vals ty locked =>
     match new with
     | .arr nel _ =>
       if locked then (match ty with | .arr el _ => el == nel | _ => false)
-      else vals.all (fun v => coercible v nel)
+      else coercibleAll vals nel
     | _ => false
   | .cast .vol inner => coercible inner new
-  | _ => base
+  | e => baseCoercible (typeOf e) new
+
+def coercibleAll (es : List TE) (new : Ty) : Bool :=
+  match es with
+  | [] => true
+  | e :: rest => coercible e new && coercibleAll rest new
+end
 
 def notErr (a b : Ty) : TErr := .tc s!"{repr a} is not {repr b}"
 
+/-- `Expression.cast` of the base class -/
+def genericCast (e : TE) (t new : Ty) : R TE :=
+  if t == new then pure e else
+  match t, new with
+  | .int, .byte => pure (.cast .i2b e)
+  | .byte, .int => pure (.cast .b2i e)
+  | .string, .bool => pure (.cast .i2bool (.len e))
+  | .arr _ _, .bool => pure (.cast .i2bool (.len e))
+  | .int, .bool => pure (.cast .i2bool e)
+  | .byte, .bool => pure (.cast .i2bool (.cast .b2i e))
+  | .bool, .byte => pure (.cast .bool2b e)
+  | .bool, .int => pure (.cast .b2i (.cast .bool2b e))
+  | .string, .arr .byte true => pure (.cast .s2a e)
+  | .arr t1 false, .arr t2 true => if t1 == t2 then pure (.cast .vol e) else throw (notErr t new)
+  | _, _ => throw (notErr t new)
+
+mutual
 /-- `cast` (explicit) / `coerce`-time cast (implicit = true keeps literal shrinkability) -/
-partial def cast (e : TE) (new : Ty) (implicit : Bool := false) : R TE :=
-  let generic (e : TE) : R TE :=
-    let t := typeOf e
-    if t == new then pure e else
-    match t, new with
-    | .int, .byte => pure (.cast .i2b e)
-    | .byte, .int => pure (.cast .b2i e)
-    | .string, .bool => cast (.len e) .bool
-    | .arr _ _, .bool => cast (.len e) .bool
-    | _, .bool => do let i ← cast e .int; pure (.cast .i2bool i)
-    | .bool, _ => cast (.cast .bool2b e) new
-    | .string, .arr .byte true => pure (.cast .s2a e)
-    | .arr t1 false, .arr t2 true => if t1 == t2 then pure (.cast .vol e) else throw (notErr t new)
-    | _, _ => throw (notErr t new)
+def cast (e : TE) (new : Ty) (implicit : Bool := false) : R TE :=
   match e with
   | .intv v _ sh =>
     match new with
     | .bool => pure (.boolv (v != 0))
     | .byte => pure (.intv (v % 256) true sh)
     | .int => pure (.intv v false implicit)
-    | _ => generic e
+    | _ => genericCast e (typeOf e) new
   | .boolv b =>
     match new with
     | .int => pure (.intv (if b then 1 else 0) false true)
     | .byte => pure (.intv (if b then 1 else 0) true true)
-    | _ => generic e
+    | _ => genericCast e .bool new
   | .strv bs =>
     match new with
     | .bool => pure (.boolv (!bs.isEmpty))
-    | _ => generic e
-  | .arrlit vals _ _ =>
+    | _ => genericCast e .string new
+  | .arrlit vals ty _ =>
     match new with
     | .arr nel _ => do
-      let vs ← vals.mapM (fun v => cast v nel)
+      let vs ← castAll vals nel
       pure (.arrlit vs new true)
-    | _ => generic e
+    | _ => genericCast e ty new
   | .cast .vol inner => cast inner new
-  | _ => generic e
+  | e => genericCast e (typeOf e) new
+
+def castAll (es : List TE) (new : Ty) : R (List TE) :=
+  match es with
+  | [] => pure []
+  | e :: rest => do
+    let c ← cast e new
+    let cs ← castAll rest new
+    pure (c :: cs)
+end
 
 def coerce (e : TE) (new : Ty) : R TE :=
   if coercible e new then
@@ -131,20 +162,21 @@ def coerce (e : TE) (new : Ty) : R TE :=
     | _ => cast e new
   else throw (notErr (typeOf e) new)
 
+/-- overload resolution of `FuncCall.evaluate`: exact signature if any, otherwise the first
+declared overload of equal arity all of whose arguments are coercible -/
+def resolveCall (cands : List FuncSig) (args : List TE) : Option FuncSig :=
+  let sig := args.map typeOf
+  match cands.find? (fun f => f.ptys == sig) with
+  | some f => some f
+  | none => cands.find? (fun f => f.ptys.length == args.length &&
+      (List.zip args f.ptys).all (fun (a, t) => coercible a t))
+
 /-! ## environment -/
 structure VarDecl where
   name : List CP
   ty : Ty
   const : Bool
   init : TE
-  deriving Repr, Inhabited
-
-structure FuncSig where
-  name : List CP
-  fl : Flavor
-  ptys : List Ty
-  ret : Ty
-  builtin : Bool
   deriving Repr, Inhabited
 
 structure Env where
@@ -229,14 +261,8 @@ partial def tcExpr (env : Env) : PExpr → R TE
     pure (.len src)
   | .call n fl args => do
     let as ← args.mapM (tcExpr env)
-    let sig := as.map typeOf
     let cands := env.funcs.filter (fun f => f.name == n && f.fl == fl)
-    let chosen :=
-      match cands.find? (fun f => f.ptys == sig) with
-      | some f => some f
-      | none => cands.find? (fun f => f.ptys.length == as.length &&
-          (List.zip as f.ptys).all (fun (a, t) => coercible a t))
-    match chosen with
+    match resolveCall cands as with
     | none => throw (.tc "No matching function")
     | some f => do
       let cs ← (List.zip as f.ptys).mapM (fun (a, t) => coerce a t)
@@ -251,7 +277,7 @@ partial def tcExpr (env : Env) : PExpr → R TE
       | t :: rest =>
         if isArr t then throw (.tc "Nested arrays are unsupported")
         else if t == .empty then throw (.tc "Array elements cannot be empty")
-        else if vs.all (fun v => coercible v t) then pure (.arrlit vs (.arr t true) false)
+        else if coercibleAll vs t then pure (.arrlit vs (.arr t true) false)
         else pick rest
     pick tys
   | .un op e => do
